@@ -23,7 +23,7 @@
 (* notification subscription at the first (change address, during          *)
 (* creation) or second (hand-over, after recording) call.                  *)
 (***************************************************************************)
-EXTENDS Integers, Sequences, FiniteSets, TLC, Json
+EXTENDS Integers, Sequences, FiniteSets, TLC, Json, IOUtils
 
 CONSTANTS
     NBase,      \* base coins are 1..NBase (attributes in BaseAttr)
@@ -251,7 +251,8 @@ RestartRej(i) ==
        /\ spentBy' = [c \in Coin |-> IF spentBy[c] \in F THEN 0 ELSE spentBy[c]]
        /\ st' = [c \in Coin |-> IF IsChange(c) /\ (c - NBase) \in F THEN -1 ELSE st[c]]
        /\ locked' = {}
-       /\ UNCHANGED <<tip, leased>>
+       /\ leased' = [c \in Coin |-> IF IsChange(c) /\ (c - NBase) \in F THEN 0 ELSE leased[c]]   \* a lease on an output that no longer exists is not listed
+       /\ UNCHANGED tip
        /\ Step("RestartRej", [n |-> i, forgotten |-> F], "ok")
 
 Next ==
@@ -296,6 +297,11 @@ FailedBroadcastNoTrace ==
          => UNCHANGED <<st, spentBy, sends>>]_vars
 ----------------------------------------------------------------------------
 View      == state
-EmitStep  == PrintT(<<"TRACE", ToJson([mat |-> Mat, nbase |-> NBase, steps |-> hist', pre |-> Obs, exp |-> Obs'])>>)
+\* Emission may be sampled inside TLC (the check sets VERIF_EMIT_EVERY / VERIF_EMIT_OFFSET): one behaviour per
+\* EmitEvery generated transitions instead of one per transition - printing dominates the exploration time.
+EmitEvery  == IF "VERIF_EMIT_EVERY" \in DOMAIN IOEnv THEN atoi(IOEnv.VERIF_EMIT_EVERY) ELSE 1
+EmitOffset == IF "VERIF_EMIT_OFFSET" \in DOMAIN IOEnv THEN atoi(IOEnv.VERIF_EMIT_OFFSET) ELSE 0
+Sampled    == EmitEvery <= 1 \/ TLCGet("generated") % EmitEvery = EmitOffset % EmitEvery
+EmitStep  == Sampled => PrintT(<<"TRACE", ToJson([mat |-> Mat, nbase |-> NBase, steps |-> hist', pre |-> Obs, exp |-> Obs'])>>)
 EmitFull  == (Len(hist) >= MaxHist) => PrintT(<<"TRACE", ToJson([mat |-> Mat, nbase |-> NBase, steps |-> hist])>>)
 =============================================================================
